@@ -218,6 +218,19 @@ def props_of(conj, sig, group):
     kind = sig.get('kind', '-')
     op = sig.get('op', '-')
     ps = set()
+    if kind == 'x2':
+        ps.add('C11')
+        if conj == 'nopanic':
+            ps.add('C13')
+        if conj == 'wellformed':
+            ps.add('C03')
+        if conj == 'observers':
+            ps.add('C05')
+        if conj == 'errpath':
+            ps.add('C12')
+        if conj == 'effect':
+            ps.add('C04')
+        return ps
     if kind == 'handles':
         ps.add('C14')
         if conj == 'nopanic':
